@@ -21,13 +21,13 @@ TIERS = {
               "NULLABLE": (8, 16, 7, 13, 24, 14), "AMBIG": (6, 15, 5, 13, 24, 14), "LEFTREC": (7, 22, 6, 16, 24, 14),
               "RIGHTREC": (8, 20, 7, 16, 24, 14), "MULTICHAR": (3, 8, 3, 8, 8, 9), "CSVISH": (8, 22, 7, 16, 28, 18),
               "TWOSTART": (8, 16, 7, 13, 12, 14), "LENGTHS": (7, 18, 6, 14, 24, 14)},
-        expand_seeds=3, mutate_seeds=1, step_timeout=150, cap=12, n_phase1=5),
+        expand_seeds=3, mutate_seeds=1, step_timeout=150, cap=8, n_phase1=5, phase1_seeds=1),
     "thorough": dict(
         plan={"ASSGN2": (9, 34, 8, 22, 220, 120), "XMLISH": (8, 34, 7, 24, 220, 120), "NUM": (8, 20, 7, 16, 160, 100),
               "NULLABLE": (10, 20, 9, 17, 60, 30), "AMBIG": (7, 17, 6, 15, 160, 60), "LEFTREC": (8, 24, 7, 18, 160, 80),
               "RIGHTREC": (9, 24, 8, 18, 160, 80), "MULTICHAR": (3, 8, 3, 8, 8, 9), "CSVISH": (8, 24, 7, 18, 220, 120),
               "TWOSTART": (10, 20, 9, 17, 30, 20), "LENGTHS": (8, 20, 7, 16, 160, 100)},
-        expand_seeds=5, mutate_seeds=4, step_timeout=400, cap=30, n_phase1=16),
+        expand_seeds=5, mutate_seeds=4, step_timeout=400, cap=30, n_phase1=16, phase1_seeds=2),
 }
 FUZZERS = [("GrammarFuzzer", 0, 10), ("GrammarCoverageFuzzer", 0, 10), ("GrammarFuzzer", 2, 5), ("GrammarCoverageFuzzer", 3, 20)]
 OPS = ["mutate", "replace_subtree_randomly", "swap_subtrees", "generalize_subtree"]
@@ -83,6 +83,8 @@ def build_units(chk, wd):
                 order = list(opens)
                 rnd.shuffle(order)
                 unit = UNIT
+                if mn > 0 and s >= P["phase1_seeds"]:
+                    continue
                 if mn > 0:
                     # phase 1 of expand_tree (deterministic max-cost strategy) only runs with min_nonterminals > 0:
                     # fewer trees, small units
